@@ -74,7 +74,13 @@ fn main() {
     let selected: Vec<&Box<dyn props::common::Check>> = plan.checks.iter().filter(|c| only.as_ref().map(|o| c.name().contains(o.as_str())).unwrap_or(true)).collect();
     // checks are independent; run them concurrently (each also parallelises internally) and
     // report in plan order
-    let results: Vec<(explore::Stats, serde_json::Value)> = selected.par_iter().map(|c| (c.run(), c.extra())).collect();
+    // (thorough tier: a few at a time, to bound peak memory; every check parallelises internally)
+    let group = if tier == Tier::Quick { selected.len().max(1) } else { 4 };
+    let mut results: Vec<(explore::Stats, serde_json::Value)> = Vec::new();
+    for chunk in selected.chunks(group) {
+        let part: Vec<(explore::Stats, serde_json::Value)> = chunk.par_iter().map(|c| (c.run(), c.extra())).collect();
+        results.extend(part);
+    }
     for (c, (st, ex)) in selected.iter().zip(results) {
         eprintln!(
             "[{}] states={} transitions={} depth={}/{} outcomes={} found={} wall={:.1}s{}",
